@@ -14,6 +14,7 @@ import (
 	"image"
 	"image/color"
 	"math"
+	"os"
 	"regexp"
 	"strconv"
 	"strings"
@@ -589,10 +590,20 @@ func main() {
 		}
 		var drawsW, drawsRef, layerDesc []string
 		arcs := false
+		strokePanic := ""
 		for _, l := range rec.layers {
 			ref := "nil"
 			if l.style.HasStroke() {
-				rp := refOutline(l).ReplaceArcs()
+				var rp *canvas.Path
+				func() {
+					defer func() {
+						if e := recover(); e != nil {
+							strokePanic = fmt.Sprintf("Path.Stroke panic: %v (path=%s width=%v cap=%v join=%v dashes=%v)", e, l.path.String(), l.style.StrokeWidth, l.style.StrokeCapper, l.style.StrokeJoiner, l.style.Dashes)
+							rp = &canvas.Path{}
+						}
+					}()
+					rp = refOutline(l).ReplaceArcs()
+				}()
 				var ok bool
 				if ref, ok = pathGeo(rp); !ok {
 					arcs = true
@@ -604,12 +615,18 @@ func main() {
 				l.path.String(), l.style.Fill.Color, l.style.Stroke.Color, l.style.StrokeWidth, l.style.StrokeCapper, l.style.StrokeJoiner, l.style.Dashes, l.style.DashOffset, l.style.FillRule, l.m))
 		}
 		desc := map[string]interface{}{"layers": layerDesc, "views": views}
+		if os.Getenv("C12_DEBUG") != "" {
+			fmt.Fprintln(os.Stderr, strings.Join(layerDesc, "\n"))
+		}
 		emit := func(fam, ctor string, toks []string, raw string, err error, extra string) {
 			d := map[string]interface{}{}
 			for k, v := range desc {
 				d[k] = v
 			}
 			d["operators"] = raw
+			if err == nil && strokePanic != "" {
+				err = fmt.Errorf("%s", strokePanic)
+			}
 			if err != nil {
 				d["harness_error"] = err.Error()
 				o.Emit(out.Case{I: i, Fam: fam, Coq: "KBad12", Desc: d})
